@@ -41,9 +41,15 @@
 (declare-fun nzup ((Array Int Int) Int) Int)
 (assert (forall ((h (Array Int Int))) (! (= (nzup h 0) 0) :pattern ((nzup h 0)))))
 (assert (forall ((h (Array Int Int)) (n Int)) (! (=> (>= n 0) (= (nzup h (+ n 1)) (+ (nzup h n) (ite (= (select h n) 0) 0 1)))) :pattern ((nzup h (+ n 1))))))
+; nzrow(h) = nzup(h, 256), the weight of one whole row.  The defining equation is shipped only on request
+; (`reveal spec.nzrowdef` / lemma `uses spec.nzrowdef`): z3 matches the numeral 256 against the pattern (+ n 1) and
+; would unfold nzup 256 times for every row term, which drowns every VC that only needs the row weight as a number.
+(declare-fun nzrow ((Array Int Int)) Int)
+;@ needs nzrowdef
+(assert (forall ((h (Array Int Int))) (! (= (nzrow h) (nzup h 256)) :pattern ((nzrow h)))))
 (declare-fun nz2up ((Array Int (Array Int Int)) Int) Int)
 (assert (forall ((H (Array Int (Array Int Int)))) (! (= (nz2up H 0) 0) :pattern ((nz2up H 0)))))
-(assert (forall ((H (Array Int (Array Int Int))) (i Int)) (! (=> (>= i 0) (= (nz2up H (+ i 1)) (+ (nz2up H i) (nzup (select H i) 256)))) :pattern ((nz2up H (+ i 1))))))
+(assert (forall ((H (Array Int (Array Int Int))) (i Int)) (! (=> (>= i 0) (= (nz2up H (+ i 1)) (+ (nz2up H i) (nzrow (select H i))))) :pattern ((nz2up H (+ i 1))))))
 ; ---- rejection samplers (specification: ExpandA's RejNTTPoly / CoeffFromThreeBytes, ExpandS's RejBoundedPoly /
 ; CoeffFromHalfByte), as functions of the candidate index over a byte string B read from offset o ----
 ; ucand(B,o,j): the j-th 23-bit candidate; accepted iff < q
@@ -106,3 +112,16 @@
                    (select S (skipTo S (posAt S i) i))
                    (- 1 (* 2 (mod (shrn s0 (- i 196)) 2))))))
      :pattern ((sib S s0 (+ i 1))))))
+; ---- sorted enumerations (C13: re-encoding decoded hints); positions are absolute array indices ----
+; adjinc(A,lo,hi): A is strictly increasing between adjacent positions of [lo,hi)
+(declare-fun adjinc ((Array Int Int) Int Int) Bool)
+;@ needs adjinc
+(assert (forall ((A (Array Int Int)) (lo Int) (hi Int)) (! (= (adjinc A lo hi) (forall ((r Int)) (! (=> (and (< lo r) (< r hi)) (< (select A (- r 1)) (select A r))) :pattern ((select A r))))) :pattern ((adjinc A lo hi)))))
+; imgsub(A,B,lo,hi): every value of A on [lo,hi) occurs in B on [lo,hi)
+(declare-fun imgsub ((Array Int Int) (Array Int Int) Int Int) Bool)
+;@ needs imgsub
+(assert (forall ((A (Array Int Int)) (B (Array Int Int)) (lo Int) (hi Int)) (! (= (imgsub A B lo hi) (forall ((p Int)) (! (=> (and (<= lo p) (< p hi)) (exists ((q Int)) (and (<= lo q) (< q hi) (= (select B q) (select A p))))) :pattern ((select A p))))) :pattern ((imgsub A B lo hi)))))
+; eqpre(A,B,lo,m): A and B agree on [lo,m)
+(declare-fun eqpre ((Array Int Int) (Array Int Int) Int Int) Bool)
+;@ needs eqpre
+(assert (forall ((A (Array Int Int)) (B (Array Int Int)) (lo Int) (m Int)) (! (= (eqpre A B lo m) (forall ((p Int)) (! (=> (and (<= lo p) (< p m)) (= (select A p) (select B p))) :pattern ((select A p)) :pattern ((select B p))))) :pattern ((eqpre A B lo m)))))
